@@ -168,6 +168,28 @@ def export_confined(ctx, path, case):
         shutil.rmtree(dest, ignore_errors=True)
 
 
+def w_fixed_image(pid, tier, seed, job):
+    """deterministic images around names that already carry the extension / differ only in it"""
+    import akai_writer as AW
+    ctx = F.Ctx(pid, tier, seed)
+    if job == 0:
+        titles = ["Intro", "Intro.wav", "a.WAV", "a", "x.wav.wav", "x.wav", ".wav"]
+        tracks = [{"indices": [(1, 0, 0, i)], "title": t} for i, t in enumerate(titles)]
+        case = {"kind": "cdda", "titles": titles}
+        ctx.count("image_names", ("cdda-fixed", tuple(titles)), nontrivial=True)
+        with R.TempImage(R.cue_text("t.bin", tracks).encode("ascii"), "t.cue", {"t.bin": bytes(2352 * (len(titles) + 1))}) as path:
+            export_confined(ctx, path, case)
+    else:
+        fn = ["FX", "FX.WAV", "KICK.WAV", "KICK", "A.WAV L", "A.WAV R"]
+        files = [AW.SampleFile(name=f, pcm=struct.pack("<4h", i, i, i, i)) for i, f in enumerate(fn)]
+        img = AW.image_bytes([AW.Partition([AW.Volume("V.WAV", files), AW.Volume("V", files[:2])], size_sectors=48)])
+        case = {"kind": "akai", "volumes": [("V.WAV", fn), ("V", fn[:2])], "d6_shape": False}
+        ctx.count("image_names", ("akai-fixed", tuple(fn)), nontrivial=True)
+        with R.TempImage(img) as path:
+            export_confined(ctx, path, case)
+    return ctx.dump()
+
+
 def w_image(pid, tier, seed, job):
     import akai_writer as AW
     ctx = F.Ctx(pid, tier, seed)
@@ -239,6 +261,7 @@ def run(ctx):
     jobs += [(True, c) for c in chunks(rnd, 300)]
     jobs += [(False, c) for c in chunks(rnd[::4], 300)]
     F.pmap(ctx, w_func, jobs)
+    F.pmap(ctx, w_fixed_image, [0, 1])
     F.pmap(ctx, w_image, [ctx.seed * 4099 + i for i in range(24 if ctx.quick else 300)])
     ctx.exhaustive = True
 
